@@ -19,6 +19,14 @@
 //! Protocol lines (model command `c04`): `init`, `commit set:<hexkey>:<tok> del:<hexkey>..`,
 //! `process`, `flush`, `enact`, `clean`, `get <hexkey>`, `iter new|seek <hexkey>|first|last|
 //! next|prev`, `tree`, `sep <len> <fill> <addr>`.
+//!
+//! Batched tree update (model command `c04b`, Pdb/Model/BTreeBatch.lean: the literal
+//! `Node::change` loop with several changes per descent): `c04b init`, `c04b apply <ops of
+//! the processed commit>`, `c04b tree` -> `d=<depth> <nodes>` where every node is printed
+//! with its separators (`<key length>.<fnv1a-64 of the key>`; leaf `[t t ..]`, internal
+//! `(child t child .. child)`): compared EXACTLY, node by node, with the dumped tree of the
+//! implementation after every processed commit; `c04b same` -> `yes` (the batched model tree
+//! is identical to the tree of the one-change-per-descent model).
 use crate::util::*;
 use parity_db::{BTreeIterator, ColumnOptions, CompressionType, Db, Operation, Options};
 use std::collections::{BTreeMap, BTreeSet, HashSet, VecDeque};
@@ -200,6 +208,64 @@ struct DumpInfo {
 	addresses: Vec<u64>,
 }
 
+fn fnv64(k: &[u8]) -> u64 {
+	let mut h: u64 = 14695981039346656037;
+	for b in k {
+		h = (h ^ (*b as u64)).wrapping_mul(1099511628211);
+	}
+	h
+}
+
+fn key_tag(k: &[u8]) -> String {
+	format!("{}.{:016x}", k.len(), fnv64(k))
+}
+
+/// Node-by-node rendering with the separators (the format of `c04b tree`).
+fn exact_shape(n: &parity_db::verif::NodeDump, level: u32, depth: u32) -> String {
+	let tags: Vec<String> = n.separators.iter().map(|(k, _)| key_tag(k)).collect();
+	if level >= depth {
+		format!("[{}]", tags.join(" "))
+	} else {
+		// c0 t0 c1 t1 .. : every separator is followed by the child to its right
+		let mut parts: Vec<String> = vec![];
+		let kids: Vec<String> = n
+			.children
+			.iter()
+			.take_while(|(a, _)| *a != 0)
+			.map(|(_, c)| match c {
+				Some(c) => exact_shape(c, level + 1, depth),
+				None => "?".into(),
+			})
+			.collect();
+		if let Some(k0) = kids.first() {
+			parts.push(k0.clone());
+			for (t, k) in tags.iter().zip(kids.iter().skip(1)) {
+				parts.push(t.clone());
+				parts.push(k.clone());
+			}
+		}
+		format!("({})", parts.join(" "))
+	}
+}
+
+fn exact_line(d: &parity_db::verif::TreeDump) -> String {
+	match &d.root_node {
+		None => format!("d={} []", d.depth),
+		Some(r) => format!("d={} {}", d.depth, exact_shape(r, 0, d.depth)),
+	}
+}
+
+fn ops_line(prefix: &str, ops: &[Op]) -> String {
+	let mut line = String::from(prefix);
+	for op in ops {
+		match op {
+			Op::Set(k, v) => line.push_str(&format!(" set:{}:{}", hex(k), v)),
+			Op::Del(k) => line.push_str(&format!(" del:{}", hex(k))),
+		}
+	}
+	line
+}
+
 fn walk(
 	n: &parity_db::verif::NodeDump,
 	level: u32,
@@ -260,6 +326,47 @@ fn walk(
 			}
 		}
 		format!("N({})", parts.join(","))
+	}
+}
+
+/// T2 rendering of a btree dump (format: lean/Pdb/Model/DumpCheck.lean, command `t2 tree`):
+/// `<root> <depth> { N <address> <nsep> { <keyhex> <value_address> }* { <child_address> }* }*`,
+/// child slots without the trailing empty ones.  The Lean driver rebuilds the model tree and
+/// evaluates `treeInvB` (TreeInv of the C04 theorems) on it.
+fn t2_tree(d: &parity_db::verif::TreeDump) -> Option<String> {
+	fn node(n: &parity_db::verif::NodeDump, out: &mut String) {
+		out.push_str(&format!(" N {} {}", n.address, n.separators.len()));
+		for (k, v) in &n.separators {
+			out.push_str(&format!(" {} {}", hex(k), v));
+		}
+		let last = n.children.iter().rposition(|(a, _)| *a != 0).map_or(0, |i| i + 1);
+		for (a, _) in &n.children[..last] {
+			out.push_str(&format!(" {}", a));
+		}
+		for (_, c) in &n.children[..last] {
+			if let Some(c) = c {
+				node(c, out);
+			}
+		}
+	}
+	let mut s = format!("t2 tree {} {}", d.root, d.depth);
+	if let Some(r) = &d.root_node {
+		node(r, &mut s);
+	}
+	if s.len() > 200 * 1024 {
+		return None
+	}
+	Some(s)
+}
+
+fn t2_tree_emit(d: &parity_db::verif::TreeDump, t: &mut Trace, ctr: &mut Counters) {
+	match t2_tree(d) {
+		Some(line) => {
+			ctr.inc("t2.tree.lines");
+			ctr.add("t2.bytes", line.len() as u64);
+			t.op(&line, "ok");
+		},
+		None => ctr.inc("t2.skipped.tree_too_big"),
 	}
 }
 
@@ -424,6 +531,7 @@ fn run_case(seed: u64, thorough: bool, root: &Path, t: &mut Trace, ctr: &mut Cou
 	} else {
 		t.op("c04 init", "ok");
 	}
+	t.op("c04b init", "ok");
 	ctr.inc(&format!("cfg.{}", cname));
 	ctr.inc(match pool.len() {
 		0..=19 => "pool.5_19",
@@ -631,7 +739,10 @@ fn run_case(seed: u64, thorough: bool, root: &Path, t: &mut Trace, ctr: &mut Cou
 					st.logged += 1;
 					st.n_processed += 1;
 					processed_since_call += 1;
-					for op in pending.pop_front().unwrap() {
+					let done = pending.pop_front().unwrap();
+					c.t.op(&ops_line("c04b apply", &done), "ok");
+					c.ctr.inc("c04b.apply");
+					for op in done {
 						match op {
 							Op::Set(k, v) => {
 								processed.insert(k, vals.bytes(&v));
@@ -645,10 +756,15 @@ fn run_case(seed: u64, thorough: bool, root: &Path, t: &mut Trace, ctr: &mut Cou
 					match parity_db::verif::btree_dump(&db, 0) {
 						Ok(d) => {
 							let (line, problems, depth) = check_dump(&d, &processed);
+							// the batched model must reproduce the implementation's tree node by node
+							c.t.op("c04b tree", &exact_line(&d));
+							c.t.op("c04b same", "yes");
+							c.ctr.inc("c04b.tree_exact");
 							for p in problems {
 								c.fail(&format!("TreeInv: {}", p));
 							}
 							c.t.op("c04 tree", &line);
+							t2_tree_emit(&d, c.t, c.ctr);
 							c.ctr.inc(&format!("tree.depth.{}", depth));
 							max_depth = std::cmp::max(max_depth, depth);
 						},
@@ -880,7 +996,10 @@ fn run_case(seed: u64, thorough: bool, root: &Path, t: &mut Trace, ctr: &mut Cou
 			st.queued -= 1;
 			st.logged += 1;
 			st.n_processed += 1;
-			for op in pending.pop_front().unwrap() {
+			let done = pending.pop_front().unwrap();
+			c.t.op(&ops_line("c04b apply", &done), "ok");
+			c.ctr.inc("c04b.apply");
+			for op in done {
 				match op {
 					Op::Set(k, v) => {
 						processed.insert(k, vals.bytes(&v));
@@ -897,10 +1016,14 @@ fn run_case(seed: u64, thorough: bool, root: &Path, t: &mut Trace, ctr: &mut Cou
 		match parity_db::verif::btree_dump(&db, 0) {
 			Ok(d) => {
 				let (line, problems, depth) = check_dump(&d, &processed);
+				c.t.op("c04b tree", &exact_line(&d));
+				c.t.op("c04b same", "yes");
+				c.ctr.inc("c04b.tree_exact");
 				for p in problems {
 					c.fail(&format!("TreeInv: {}", p));
 				}
 				c.t.op("c04 tree", &line);
+				t2_tree_emit(&d, c.t, c.ctr);
 				max_depth = std::cmp::max(max_depth, depth);
 			},
 			Err(e) => c.fail(&format!("tree dump failed: {:?}", e)),
@@ -980,10 +1103,13 @@ fn run_case(seed: u64, thorough: bool, root: &Path, t: &mut Trace, ctr: &mut Cou
 			match parity_db::verif::btree_dump(&db, 0) {
 				Ok(d) => {
 					let (line, problems, _) = check_dump(&d, &committed);
+					c.t.op("c04b tree", &exact_line(&d));
+					c.ctr.inc("c04b.tree_exact");
 					for p in problems {
 						c.fail(&format!("TreeInv after reopen: {}", p));
 					}
 					c.t.op("c04 tree", &line);
+					t2_tree_emit(&d, c.t, c.ctr);
 				},
 				Err(e) => c.fail(&format!("tree dump after reopen failed: {:?}", e)),
 			}
